@@ -7,6 +7,8 @@ import (
 	"bytes"
 	"fmt"
 	"math/rand"
+	"os"
+	"path/filepath"
 	"regexp"
 	"sort"
 	"strings"
@@ -157,6 +159,78 @@ func runInteractive(c *harness.Ctx) harness.Result {
 	return res
 }
 
+// listings of a real binary through pprof's own binutils wrapper (objdump, nm): the assembler
+// syntax and every other listing option in effect must be those assigned before the command
+func runDisasm(c *harness.Ctx) harness.Result {
+	r := c.Rng
+	repo := os.Getenv("VERIF_REPO")
+	if repo == "" {
+		repo = "/repo"
+	}
+	exe := filepath.Join(repo, "internal/binutils/testdata/exe_linux_64")
+	if _, err := os.Stat(exe); err != nil {
+		return harness.Result{Verdict: harness.Inconclusive, Detail: "test binary missing: " + err.Error()}
+	}
+	if _, err := os.Stat("/usr/bin/objdump"); err != nil {
+		return harness.Result{Verdict: harness.Inconclusive, Detail: "objdump not installed"}
+	}
+	m := &profile.Mapping{ID: 1, Start: 0x400000, Limit: 0x401000, File: exe}
+	fn := &profile.Function{ID: 1, Name: "main", SystemName: "main", Filename: "hello.c"}
+	p := &profile.Profile{SampleType: []*profile.ValueType{{Type: "samples", Unit: "count"}}, PeriodType: &profile.ValueType{Type: "cpu", Unit: "nanoseconds"}, Period: 1, Mapping: []*profile.Mapping{m}, Function: []*profile.Function{fn}}
+	for i := 0; i < 3; i++ {
+		l := &profile.Location{ID: uint64(i + 1), Mapping: m, Address: 0x40052d + uint64(4*i+r.Intn(3)), Line: []profile.Line{{Function: fn, Line: int64(4 + i)}}}
+		p.Location = append(p.Location, l)
+		p.Sample = append(p.Sample, &profile.Sample{Value: []int64{int64(1 + r.Intn(9))}, Location: []*profile.Location{l}})
+	}
+	var buf bytes.Buffer
+	p.WriteUncompressed(&buf)
+	pool := []line{{"disasm main", false}, {"intel_syntax=true", true}, {"intel_syntax=false", true}, {"intel_syntax", true}, {"disasm main > d.txt", false}, {"weblist main > w.html", false}, {"disasm .", false}, {"unit=ms", true}, {"top", false}}
+	var h []line
+	for i, n := 0, 4+r.Intn(6); i < n; i++ {
+		h = append(h, pool[r.Intn(len(pool))])
+	}
+	var lines []string
+	for _, l := range h {
+		lines = append(lines, l.text)
+	}
+	res := harness.Result{NonTrivial: true, Sig: fmt.Sprintf("disasm %q", lines), Sample: map[string]any{"history": lines, "binary": "internal/binutils/testdata/exe_linux_64"}}
+	full, err := sess.Run(sess.Spec{Profile: buf.Bytes(), Mode: "interactive", Lines: lines, Dir: c.Tmp + "/full", RealObj: true}, 2*time.Minute)
+	if err != nil {
+		return harness.Result{Verdict: harness.Inconclusive, Detail: "session: " + err.Error()}
+	}
+	if full.Panic != "" || len(full.Segments) < len(h) {
+		return harness.Violation("session panicked or stopped: %s\nhistory: %q", harness.Trunc(full.Panic, 1500), lines)
+	}
+	c.Stat("disasm_sessions", 1)
+	listed := false
+	var assigns []string
+	for i, l := range h {
+		if l.assign {
+			assigns = append(assigns, l.text)
+			continue
+		}
+		replay := append(append([]string{}, assigns...), l.text)
+		fresh, err := sess.Run(sess.Spec{Profile: buf.Bytes(), Mode: "interactive", Lines: replay, Dir: fmt.Sprintf("%s/fresh%d", c.Tmp, i), RealObj: true}, 2*time.Minute)
+		if err != nil || len(fresh.Segments) < len(replay) {
+			return harness.Result{Verdict: harness.Inconclusive, Detail: fmt.Sprintf("fresh session: %v", err)}
+		}
+		got, want := normSeg(full.Segments[i]), normSeg(fresh.Segments[len(replay)-1])
+		if strings.Contains(want, "push") || strings.Contains(want, "mov") {
+			listed = true
+		}
+		c.Stat("disasm_commands_compared", 1)
+		if got != want {
+			res.Verdict = harness.Violated
+			res.Detail = fmt.Sprintf("line %d %q answers differently in the session than in a fresh session that only replays the %d assignments before it\nhistory so far: %q\n--- in session\n%s\n--- fresh session\n%s", i, l.text, len(assigns), lines[:i+1], harness.Trunc(got, 1500), harness.Trunc(want, 1500))
+			return res
+		}
+	}
+	if listed {
+		c.Stat("disasm_listings_with_instructions", 1)
+	}
+	return res
+}
+
 var webPaths = []string{"/top", "/", "/peek", "/flamegraph", "/source", "/disasm", "/download"}
 var webParams = []string{"f=main", "f=a", "f=a|b", "i=c", "h=d|e", "s=a|b|main", "sf=b", "g=lines", "g=files", "g=addresses", "si=cpu", "si=samples", "n=2", "sort=cum", "noinlines=t", "tf=v1", "ti=x", "ts=k1", "th=k2", "tagroot=k1", "tagleaf=k2", "calltree=t", "mean=t", "rel=t", "nodefraction=0.3", "trim=false", "prunefrom=c", "unit=ms", "showcolumns=t"}
 
@@ -259,14 +333,18 @@ func init() {
 		ID:          "C10",
 		Level:       "exploration",
 		CaseTimeout: 15 * time.Minute,
-		Rule:        "part interactive: histories of 5-20 lines mixing 45 report commands (with focus/ignore arguments, node counts, -cum, >file, mutating reports: hide/show/show_from/prune_from/tagroot/tagleaf/granularity/noinlines/callgrind/tags/list/weblist/disasm) and 84 option assignments (incl. shortcuts and ':'), run in one fresh child process with per-line transcripts (stdout, UI prints, UI errors, files written or changed - captured by a Writer plug-in or, for every other history, written by pprof itself into the session directory); for EVERY command the same command is run in another fresh process that only replays the assignments preceding it, and the transcripts must be byte-equal (temporary-file counters normalised, saved profiles compared by content). part web: request histories over /top / /peek /flamegraph /source /disasm /download with query configs, sequential or from 2-6 concurrent clients against one server; every response must equal the response to the same request sent first to a fresh server. The very *profile.Profile object handed to pprof is fingerprinted after every command/request and must never change. non-trivial = every case; distinct = case",
+		Rule:        "part interactive: histories of 5-20 lines mixing 45 report commands (with focus/ignore arguments, node counts, -cum, >file, mutating reports: hide/show/show_from/prune_from/tagroot/tagleaf/granularity/noinlines/callgrind/tags/list/weblist/disasm) and 84 option assignments (incl. shortcuts and ':'), run in one fresh child process with per-line transcripts (stdout, UI prints, UI errors, files written or changed - captured by a Writer plug-in or, for every other history, written by pprof itself into the session directory); for EVERY command the same command is run in another fresh process that only replays the assignments preceding it, and the transcripts must be byte-equal (temporary-file counters normalised, saved profiles compared by content). part disasm: histories of disasm / weblist commands and intel_syntax / unit assignments over a real binary (the repository's exe_linux_64) through pprof's own binutils wrapper with the installed objdump and nm, compared the same way. part web: request histories over /top / /peek /flamegraph /source /disasm /download with query configs, sequential or from 2-6 concurrent clients against one server; every response must equal the response to the same request sent first to a fresh server. The very *profile.Profile object handed to pprof is fingerprinted after every command/request and must never change. non-trivial = every case; distinct = case",
 		Assumptions: []string{"the only state a command may depend on is the sequence of option assignments before it", "saveconfig/deleteconfig are excluded here (C19)"},
 		Parts: []harness.Part{
 			{Name: "interactive", Quick: 500, Thor: 10000, Run: runInteractive},
 			{Name: "web", Quick: 500, Thor: 10000, Run: runWeb},
+			{Name: "disasm", Quick: 40, Thor: 1500, Run: runDisasm},
 		},
 		MinNonTrivial: func(string) int { return 100 },
 		Finish: func(tier string, st map[string]int64) string {
+			if st["disasm_sessions"] > 0 && st["disasm_listings_with_instructions"] == 0 {
+				return "the disasm part never saw a listing with instructions (objdump/nm not usable?)"
+			}
 			if st["concurrent_sessions"] > 0 && st["overlapping_request_pairs"] == 0 {
 				return "concurrent web sessions never overlapped two requests"
 			}
